@@ -16,6 +16,10 @@ REAL = {
     "interchain-token": "contracts/interchain-token",
     "example": "contracts/example",
     "interchain-token-service": "contracts/interchain-token-service",
+    # API-only units: the same real sources with key-agnostic scenario harnesses (compiled separately, so
+    # they survive a change of the storage keys' types that stops the main harnesses from compiling)
+    "axelar-gateway-api": "contracts/axelar-gateway",
+    "axelar-operators-api": "contracts/axelar-operators",
 }
 IGNORED_MODS = {"testutils", "test", "tests"}
 
